@@ -35,7 +35,7 @@ static void check_stop(int log_from, int wr_from, int joined_before, int expect_
 	 * the order between different track outputs is not prescribed */
 	for (int b = 0; b < M.nb; b++) if (cm_board_connected(&M, b) && cm_is_track_output(&M.b[b])) {
 		uint8_t a[4]; cm_board_addr(&M, b, a);
-		int phase = 0, drives = 0, seen_train[CM_MAXT] = {0, 0, 0}, bad = 0, total = 0;
+		int phase = 0, drives = 0, seen_train[CM_MAXT] = {0}, bad = 0, total = 0;
 		for (int i = log_from; i < SB.nlog && !bad; i++) {
 			if (memcmp(SB.log[i].addr, a, 4) || (SB.log[i].type != MSG_CS_SET_STATE && SB.log[i].type != MSG_CS_DRIVE)) continue;
 			if (phase == 0 && !(SB.log[i].type == MSG_CS_SET_STATE && SB.log[i].dlen == 1 && SB.log[i].data[0] == 0x02)) continue;   /* user traffic that was still pending goes out first */
@@ -44,7 +44,10 @@ static void check_stop(int log_from, int wr_from, int joined_before, int expect_
 			else if (SB.log[i].type == MSG_CS_DRIVE && SB.log[i].dlen == 9 && phase == 1) {
 				int t = -1; for (int k = 0; k < M.nt; k++) if (M.t[k].addrl == SB.log[i].data[0] && M.t[k].addrh == SB.log[i].data[1]) t = k;
 				static const uint8_t zero[6] = {0, 0, 0, 0, 0, 0};
-				if (t < 0 || seen_train[t] || memcmp(SB.log[i].data + 3, zero, 6)) bad = 1; else { seen_train[t] = 1; drives++; }
+				if (t < 0 || seen_train[t] || memcmp(SB.log[i].data + 3, zero, 6)) bad = 1; else { seen_train[t] = 1; drives++;
+					/* a zero-speed command is one in the train's own speed-step format (14 / 28 / 126 steps), as every drive command for it */
+					int fmt = M.t[t].steps == 126 ? 3 : M.t[t].steps == 28 ? 2 : 0;
+					if (SB.log[i].data[2] != fmt) res_violation("shutdown-command-format: the zero-speed command of a train is not in the train's configured speed-step format", "%s: board %s, train %s (%d steps): format byte %02x, expected %02x", what, M.b[b].id, M.t[t].id, M.t[t].steps, SB.log[i].data[2], fmt); }
 			}
 			else if (SB.log[i].type == MSG_CS_SET_STATE && SB.log[i].dlen == 1 && SB.log[i].data[0] == 0x00 && phase == 1 && drives == M.nt) phase = 2;
 			else bad = 1;
@@ -85,7 +88,7 @@ static int apply(int ev, int idx) {
 		cm_std(&M); silent = ev == E_S_SILENT; lost_pings = 0;
 		/* seven trains: their zero-speed commands plus soft-stop and track-off need more than the 48-byte response budget of the
 		 * command station, so the shutdown dialogue only completes if its answers are still credited while it runs */
-		while (M.nt < 7) { cm_train_t *t = &M.t[M.nt]; memset(t, 0, sizeof *t); snprintf(t->id, sizeof t->id, "xtrain%d", M.nt); t->addrl = (uint8_t) (0x40 + M.nt); t->addrh = 0x00; t->steps = 28; M.nt++; }
+		while (M.nt < 7) { cm_train_t *t = &M.t[M.nt]; memset(t, 0, sizeof *t); snprintf(t->id, sizeof t->id, "xtrain%d", M.nt); t->addrl = (uint8_t) (0x40 + M.nt); t->addrh = 0x00; t->steps = M.nt % 3 == 0 ? 14 : M.nt % 3 == 1 ? 126 : 28; M.nt++; }      /* every speed-step format, a 14-step train after others */
 		cm_install(&M); SB.on_msg = bus_hook; SB.pkt_capacity = 100;
 		if (ev == E_S_BADCFG) env_set_cfg(M.board_txt, BADTRACK, M.train_txt);
 		if (sess_open) sess_open = 0;
